@@ -46,6 +46,7 @@ type Path struct {
 	calllog  []string
 	fmtNames map[string]string
 	envReads []string
+	curInst  func() string
 }
 
 type pathEnd struct{ reason string }
@@ -154,6 +155,9 @@ func (p *Path) branch(c *Term) bool {
 		p.ex.noteUnknown("branch feasibility (false side): " + p.lastErr())
 	}
 	// both feasible: take true now, schedule false
+	if p.curInst != nil {
+		p.ex.noteFork(p.curInst())
+	}
 	alt := make([]bool, 0, i+1)
 	for _, d := range p.trace {
 		alt = append(alt, d.val)
